@@ -68,6 +68,20 @@ def base_programs(tier, with_cont=True):
     return _uniq(progs)
 
 
+def alias_programs(tier):
+    """All sequences of length <= 3 over the S_ALIAS menu that contain a condition atom twice with an assignment
+    in between (non-reduced atoms share aliases `_r` that must be invalidated on reassignment)."""
+    out = []
+    for seq in gen.sequences(gen.S_ALIAS, 3):
+        nifs = sum(1 for s in seq if s.startswith("if"))
+        if len(seq) < 2 or nifs < 2:
+            continue
+        if tier == "quick" and len(seq) == 3 and not (seq[0].startswith("if") and seq[2].startswith("if") and not seq[1].startswith("if")):
+            continue
+        out.append(gen.render(seq, "true", "const"))
+    return _uniq(out)
+
+
 def program_corpus(kind, tier):
     """-> list of (text, goals)"""
     out = []
@@ -121,7 +135,7 @@ def compare_closed_form(model, goal, sol, N, seed=0, stats=None, exact=True, tol
 
 
 def analyse_program_goals(text, goals, N, seed=0, settings=None, force_cyclic=False, rounded_tol=1e-5,
-                          refusal_is_violation=False):
+                          refusal_is_violation=False, model_text=None):
     """One C01 case: a program and its goals.  Returns the pool result dict."""
     from . import polar
 
@@ -132,13 +146,13 @@ def analyse_program_goals(text, goals, N, seed=0, settings=None, force_cyclic=Fa
     res = {"status": "ok", "stats": stats, "violations": []}
     try:
         with cpu_limit(20):
-            model = build_model(text)
+            model = build_model(model_text or text)
             model.run(N)
     except CpuTimeout:
         res["status"] = "na"
         stats["caps_hit"] = 1
         return res
-    except (NotApplicable, NotPolynomial) as e:
+    except (NotApplicable, NotPolynomial, RefParseError) as e:
         res["status"] = "na"
         stats["model_not_applicable"] = 1
         return res
